@@ -562,9 +562,13 @@ def shared_geom(seg):
     return iop, ps, sbs
 
 
-def model_store_req(g, n0, included):
-    return ('storeStack', {'d': [[rstr(x) for x in _col(g['d'], j)] for j in range(3)], 's': [rstr(x) for x in g['s']],
-                           'p': [rstr(x) for x in g['p']], 'n0': n0, 'ks': list(included)})
+def model_store_req(g, n0, included, flags=None, omit=None):
+    args = {'d': [[rstr(x) for x in _col(g['d'], j)] for j in range(3)], 's': [rstr(x) for x in g['s']],
+            'p': [rstr(x) for x in g['p']], 'n0': n0, 'ks': list(included)}
+    if flags is not None:
+        # the model chooses the stored planes itself (keptPlanes) from the emptiness of the planes and the option
+        args.update(flags=[bool(f) for f in flags], omit=bool(omit))
+    return ('storeStack', args)
 
 
 def model_read_req(positions, iop, ps, sbs, rows, cols, req=None, allow_missing=True, kind='seg'):
@@ -677,7 +681,7 @@ def check_vol_case(ctx, descr, g, arr, mk, reqs, pending):
             ctx.fail(descr, {'what': 'stored orientation / pixel measures differ from the volume',
                              'iop': [float(x) for x in iop], 'ps': [float(x) for x in psx], 'sbs': None if sbs is None else float(sbs)},
                      site='stored-measures')
-        reqs.append(model_store_req(g, shape[0], included))
+        reqs.append(model_store_req(g, shape[0], included, flags=[bool(arr[k].any()) for k in range(shape[0])], omit=descr['omit']))
         pending.append((dict(descr, what='stored positions/orientation/measures', layer='L1'),
                         ('ok', {'pos': [[rstr(x) for x in p] for p in sorted(stored_pos)], 'iop': [rstr(x) for x in iop],
                                 'ps': [rstr(x) for x in psx], 'sbs': rstr(sbs) if sbs is not None else None})))
